@@ -29,6 +29,9 @@ type dbExec struct {
 	clock   *time2.MockedClock
 	notif   bool
 	dir     string // non-empty: on-disk store (programs with restarts)
+	subs    []kv.SequenceWaiter // sequence-update subscribers (sq.* ops)
+	seen    []string            // what each of them has observed last ("\x00none" = nothing yet)
+	tainted bool                // a write failed as a whole after it had told subscribers about keys
 }
 
 func (e *dbExec) close() {
@@ -279,10 +282,56 @@ func (e *dbExec) op(op string) string {
 		}
 	}
 	switch f[0] {
+	case "sq.sub":
+		sw, err := e.db.GetSequenceUpdates(string(core.UnHex(f[1])))
+		if err != nil {
+			return "err:" + err.Error()
+		}
+		e.subs = append(e.subs, sw)
+		e.seen = append(e.seen, "\x00none")
+		return fmt.Sprintf("sub=%d", len(e.subs)-1)
+	case "sq.close":
+		var n int
+		fmt.Sscan(f[1], &n)
+		if n < 0 || n >= len(e.subs) || e.subs[n] == nil {
+			return "closed"
+		}
+		_ = e.subs[n].Close()
+		e.subs[n] = nil
+		return "ok"
+	case "sq.last":
+		var n int
+		fmt.Sscan(f[1], &n)
+		if n < 0 || n >= len(e.subs) || e.subs[n] == nil {
+			return "closed"
+		}
+		if e.tainted {
+			// a request that failed as a whole (the poison entry of known finding D-5) has announced keys
+			// of its earlier puts, which were never committed: not comparable from here on
+			return "~tainted"
+		}
+		// the override channel holds at most the latest value
+		for drained := false; !drained; {
+			select {
+			case v, ok := <-e.subs[n].Ch():
+				if !ok {
+					drained = true
+				} else {
+					e.seen[n] = v
+				}
+			default:
+				drained = true
+			}
+		}
+		if e.seen[n] == "\x00none" {
+			return "last=none"
+		}
+		return "last=" + core.Hex([]byte(e.seen[n]))
 	case "db.write":
 		req, off, ts := parseWriteOp(f)
 		resp, err := e.db.ProcessWrite(req, off, ts, server.WrapperUpdateOperationCallback)
 		if err != nil {
+			e.tainted = true
 			return dbInfra(err)
 		}
 		ps := make([]string, len(resp.Puts))
